@@ -61,7 +61,7 @@ pub struct C12Plan {
 
 pub struct C12;
 
-const CORPUS: &[&str] = &[
+pub const CORPUS: &[&str] = &[
     "8da05629ea21485cbf3f8cadaeeb", // BDS 6,2 target state
     "a0001838201584f23468207cdfa5", // DF20 BDS 2,0 / 1,0
     "a800178d10010080f50000d5893c", // DF21
@@ -394,7 +394,7 @@ fn same_value(a: &Value, b: &Value) -> bool {
     }
 }
 
-fn first_diff_entry(a: &Value, b: &Value) -> String {
+pub fn first_diff_entry(a: &Value, b: &Value) -> String {
     let (Some(x), Some(y)) = (a.as_array(), b.as_array()) else {
         return a.to_string();
     };
@@ -409,11 +409,11 @@ fn first_diff_entry(a: &Value, b: &Value) -> String {
 }
 
 /// exactly what web::all puts on the wire (warp::reply::json = serde_json::to_vec)
-fn table_text(app: &Jet1090) -> String {
+pub fn table_text(app: &Jet1090) -> String {
     serde_json::to_string(&app.state_vectors.values().map(|sv| &sv.cur).collect::<Vec<_>>()).unwrap()
 }
 
-fn table_json(app: &Jet1090) -> Value {
+pub fn table_json(app: &Jet1090) -> Value {
     serde_json::to_value(app.state_vectors.values().map(|sv| &sv.cur).collect::<Vec<_>>()).unwrap()
 }
 
@@ -446,6 +446,169 @@ const PROV_FIELDS: &[&str] = &[
     "heading",
     "nacp",
 ];
+
+/// Clauses 1-4 of C12 on a final table: `done` = the post-decode records in the
+/// order in which update_snapshot completed. Used by the focused scenario and
+/// by the pipeline. Returns the number of distinct aircraft expected.
+pub fn judge_final_table(
+    done: &[TimedMessage],
+    app: &Arc<Mutex<Jet1090>>,
+    final_table: &Value,
+    count: &mut dyn FnMut(&'static str, u64),
+    viol: &mut Option<Violation>,
+) -> usize {
+    macro_rules! set {
+        ($v:expr) => {{
+            let v = $v;
+            if viol.is_none() {
+                *viol = Some(v);
+            }
+        }};
+    }
+    // per-aircraft expectations from the records' own JSON
+    struct Exp {
+        count: u64,
+        first: u64,
+        last: u64,
+        min: u64,
+        max: u64,
+        values: Vec<Value>,
+        recs: Vec<usize>,
+    }
+    let mut exp: BTreeMap<String, Exp> = BTreeMap::new();
+    let mut kinds: BTreeSet<String> = BTreeSet::new();
+    let mut addressless = 0u64;
+    for (i, m) in done.iter().enumerate() {
+        let j = serde_json::to_value(m).unwrap();
+        let df = j.get("df").and_then(|d| d.as_str()).unwrap_or("?").to_string();
+        kinds.insert(format!("{}:{}", df, j.get("bds").and_then(|b| b.as_str()).unwrap_or("-")));
+        let addressed = ["0", "4", "5", "11", "16", "17", "18", "20", "21"].contains(&df.as_str());
+        match (addressed, j.get("icao24").and_then(|v| v.as_str())) {
+            (true, Some(icao)) => {
+                let e = exp.entry(icao.to_string()).or_insert(Exp {
+                    count: 0,
+                    first: m.timestamp as u64,
+                    last: 0,
+                    min: u64::MAX,
+                    max: 0,
+                    values: Vec::new(),
+                    recs: Vec::new(),
+                });
+                e.count += 1;
+                e.last = m.timestamp as u64;
+                e.min = e.min.min(m.timestamp as u64);
+                e.max = e.max.max(m.timestamp as u64);
+                leaves(&j, &mut e.values);
+                e.recs.push(i);
+                if j.get("latitude").is_some() {
+                    count("position_attached", 1);
+                }
+            }
+            _ => addressless += 1,
+        }
+    }
+    count("addressless_records", addressless);
+    count("kinds_seen", kinds.len() as u64);
+    {
+        let ks: Vec<u32> = exp.keys().filter_map(|k| u32::from_str_radix(k, 16).ok()).collect();
+        let mut close = false;
+        for a in 0..ks.len() {
+            for b in a + 1..ks.len() {
+                if (ks[a] ^ ks[b]).count_ones() == 1 {
+                    close = true;
+                }
+            }
+        }
+        count("aircraft_one_bit_apart", close as u64);
+    }
+    if let Value::Array(entries) = final_table {
+        // clause 1: exactly one entry per address seen, keyed by the JSON address
+        let keys: Vec<String> = entries.iter().map(|e| e["icao24"].as_str().unwrap_or("").to_string()).collect();
+        if let Ok(g) = app.try_lock() {
+            for (k, sv) in g.state_vectors.iter() {
+                if *k != sv.cur.icao24 {
+                    set!(Violation::new("c12.1-keys", "key-differs-from-entry", format!("entry stored under key {} says icao24 {}", k, sv.cur.icao24)));
+                }
+            }
+        }
+        let want: Vec<String> = exp.keys().cloned().collect();
+        let mut have = keys.clone();
+        have.sort();
+        if have != want {
+            let missing: Vec<&String> = want.iter().filter(|k| !have.contains(k)).collect();
+            let extra: Vec<&String> = have.iter().filter(|k| !want.contains(k)).collect();
+            set!(Violation::new(
+                "c12.1-keys",
+                if !extra.is_empty() { "unexpected-entry" } else { "missing-entry" },
+                format!("table keys {:?}; addresses shown by the records' JSON {:?}; missing {:?}, unexpected {:?}", have, want, missing, extra),
+            ));
+        }
+        for e in entries {
+            let k = e["icao24"].as_str().unwrap_or("").to_string();
+            let Some(x) = exp.get(&k) else { continue };
+            count("entries_checked", 1);
+            // clause 2
+            if e["count"].as_u64() != Some(x.count) {
+                set!(Violation::new("c12.2-count", "count", format!("aircraft {}: count {} but {} of its records were processed", k, e["count"], x.count)));
+            }
+            // 'first' and 'latest' record: by processing order or by time stamp
+            // (they differ only for non-monotone histories; either reading is accepted)
+            if e["firstseen"].as_u64() != Some(x.first) && e["firstseen"].as_u64() != Some(x.min) {
+                set!(Violation::new("c12.2-count", "firstseen", format!("aircraft {}: firstseen {} but its first record is stamped {} (earliest stamp {})", k, e["firstseen"], x.first, x.min)));
+            }
+            if e["lastseen"].as_u64() != Some(x.last) && e["lastseen"].as_u64() != Some(x.max) {
+                set!(Violation::new("c12.2-count", "lastseen", format!("aircraft {}: lastseen {} but its latest record is stamped {} (latest stamp {})", k, e["lastseen"], x.last, x.max)));
+            }
+            // clause 3: provenance
+            for f in PROV_FIELDS {
+                let v = &e[*f];
+                if v.is_null() {
+                    continue;
+                }
+                if !x.values.iter().any(|w| same_value(w, v)) {
+                    // whose value is it?
+                    let owner = exp.iter().find(|(kk, xx)| **kk != k && xx.values.iter().any(|w| same_value(w, v))).map(|(kk, _)| kk.clone());
+                    set!(Violation::new(
+                        "c12.3-provenance",
+                        format!("{}", f),
+                        format!("aircraft {}: {} = {} does not appear in any of its own {} records{}", k, f, v, x.count, owner.map(|o| format!(" (it appears in records of {})", o)).unwrap_or_default()),
+                    ));
+                }
+            }
+        }
+        // clause 4: the entry is identical when the aircraft's records are processed alone
+        if viol.is_none() && exp.len() > 1 {
+            for (k, x) in exp.iter() {
+                let alone = Arc::new(Mutex::new(app::new_app(120)));
+                let db = BTreeMap::new();
+                for &i in &x.recs {
+                    let mut m = app::clone_tm(&done[i]);
+                    app::now_or_never(crate::snapshot::update_snapshot(&alone, &mut m, &db));
+                }
+                let t = table_json(&alone.try_lock().unwrap());
+                let mine = entries.iter().find(|e| e["icao24"].as_str() == Some(k));
+                if t.get(0) != mine {
+                    let mut field = "entry".to_string();
+                    if let (Some(Value::Object(a)), Some(Value::Object(b))) = (t.get(0), mine) {
+                        for (kk, vv) in a {
+                            if b.get(kk) != Some(vv) {
+                                field = kk.clone();
+                                break;
+                            }
+                        }
+                    }
+                    set!(Violation::new(
+                        "c12.4-interference",
+                        field,
+                        format!("aircraft {}: entry {} when other aircraft are interleaved, {} when its records are processed alone", k, mine.map(|m| m.to_string()).unwrap_or_default(), t.get(0).map(|m| m.to_string()).unwrap_or_default()),
+                    ));
+                    break;
+                }
+            }
+        }
+    }
+    exp.len()
+}
 
 pub fn execute(plan: &C12Plan) -> Outcome<C12Plan> {
     let mut out = Outcome::new();
@@ -542,7 +705,7 @@ pub fn execute(plan: &C12Plan) -> Outcome<C12Plan> {
             store_history: true,
         };
         let app = app.clone();
-        sim.spawn("main-loop(stub)+update_snapshot/store_history(real)", app::main_loop(rx, app, reference, hooks))
+        sim.spawn("main-loop(stub)+update_snapshot/store_history(real)", app::main_loop(rx, app, BTreeMap::from([(7u64, reference)]), hooks))
     };
     // readers
     let mut cancels: Vec<(usize, u64, usize)> = Vec::new(); // (task, at, reader)
@@ -658,147 +821,19 @@ pub fn execute(plan: &C12Plan) -> Outcome<C12Plan> {
             Value::Null
         }
     };
-    // per-aircraft expectations from the records' own JSON
-    struct Exp {
-        count: u64,
-        first: u64,
-        last: u64,
-        min: u64,
-        max: u64,
-        values: Vec<Value>,
-        recs: Vec<usize>,
-    }
-    let mut exp: BTreeMap<String, Exp> = BTreeMap::new();
-    let mut kinds: BTreeSet<String> = BTreeSet::new();
-    let mut addressless = 0u64;
-    for (i, m) in sh.done.iter().enumerate() {
-        let j = serde_json::to_value(m).unwrap();
-        let df = j.get("df").and_then(|d| d.as_str()).unwrap_or("?").to_string();
-        kinds.insert(format!("{}:{}", df, j.get("bds").and_then(|b| b.as_str()).unwrap_or("-")));
-        let addressed = ["0", "4", "5", "11", "16", "17", "18", "20", "21"].contains(&df.as_str());
-        match (addressed, j.get("icao24").and_then(|v| v.as_str())) {
-            (true, Some(icao)) => {
-                let e = exp.entry(icao.to_string()).or_insert(Exp {
-                    count: 0,
-                    first: m.timestamp as u64,
-                    last: 0,
-                    min: u64::MAX,
-                    max: 0,
-                    values: Vec::new(),
-                    recs: Vec::new(),
-                });
-                e.count += 1;
-                e.last = m.timestamp as u64;
-                e.min = e.min.min(m.timestamp as u64);
-                e.max = e.max.max(m.timestamp as u64);
-                leaves(&j, &mut e.values);
-                e.recs.push(i);
-                if j.get("latitude").is_some() {
-                    out.count("position_attached", 1);
-                }
-            }
-            _ => addressless += 1,
-        }
-    }
-    out.count("addressless_records", addressless);
-    out.count("kinds_seen", kinds.len() as u64);
+    let n_exp;
     {
-        let ks: Vec<u32> = exp.keys().filter_map(|k| u32::from_str_radix(k, 16).ok()).collect();
-        let mut close = false;
-        for a in 0..ks.len() {
-            for b in a + 1..ks.len() {
-                if (ks[a] ^ ks[b]).count_ones() == 1 {
-                    close = true;
-                }
-            }
+        let mut v: Option<Violation> = None;
+        let mut counts: Vec<(&'static str, u64)> = Vec::new();
+        n_exp = judge_final_table(&sh.done, &app, &final_table, &mut |k, n| counts.push((k, n)), &mut v);
+        for (k, n) in counts {
+            out.count(k, n);
         }
-        out.count("aircraft_one_bit_apart", close as u64);
+        if let Some(v) = v {
+            set(v);
+        }
     }
-    if let Value::Array(entries) = &final_table {
-        // clause 1: exactly one entry per address seen, keyed by the JSON address
-        let keys: Vec<String> = entries.iter().map(|e| e["icao24"].as_str().unwrap_or("").to_string()).collect();
-        if let Ok(g) = app.try_lock() {
-            for (k, sv) in g.state_vectors.iter() {
-                if *k != sv.cur.icao24 {
-                    set(Violation::new("c12.1-keys", "key-differs-from-entry", format!("entry stored under key {} says icao24 {}", k, sv.cur.icao24)));
-                }
-            }
-        }
-        let want: Vec<String> = exp.keys().cloned().collect();
-        let mut have = keys.clone();
-        have.sort();
-        if have != want {
-            let missing: Vec<&String> = want.iter().filter(|k| !have.contains(k)).collect();
-            let extra: Vec<&String> = have.iter().filter(|k| !want.contains(k)).collect();
-            set(Violation::new(
-                "c12.1-keys",
-                if !extra.is_empty() { "unexpected-entry" } else { "missing-entry" },
-                format!("table keys {:?}; addresses shown by the records' JSON {:?}; missing {:?}, unexpected {:?}", have, want, missing, extra),
-            ));
-        }
-        for e in entries {
-            let k = e["icao24"].as_str().unwrap_or("").to_string();
-            let Some(x) = exp.get(&k) else { continue };
-            out.count("entries_checked", 1);
-            // clause 2
-            if e["count"].as_u64() != Some(x.count) {
-                set(Violation::new("c12.2-count", "count", format!("aircraft {}: count {} but {} of its records were processed", k, e["count"], x.count)));
-            }
-            // 'first' and 'latest' record: by processing order or by time stamp
-            // (they differ only for non-monotone histories; either reading is accepted)
-            if e["firstseen"].as_u64() != Some(x.first) && e["firstseen"].as_u64() != Some(x.min) {
-                set(Violation::new("c12.2-count", "firstseen", format!("aircraft {}: firstseen {} but its first record is stamped {} (earliest stamp {})", k, e["firstseen"], x.first, x.min)));
-            }
-            if e["lastseen"].as_u64() != Some(x.last) && e["lastseen"].as_u64() != Some(x.max) {
-                set(Violation::new("c12.2-count", "lastseen", format!("aircraft {}: lastseen {} but its latest record is stamped {} (latest stamp {})", k, e["lastseen"], x.last, x.max)));
-            }
-            // clause 3: provenance
-            for f in PROV_FIELDS {
-                let v = &e[*f];
-                if v.is_null() {
-                    continue;
-                }
-                if !x.values.iter().any(|w| same_value(w, v)) {
-                    // whose value is it?
-                    let owner = exp.iter().find(|(kk, xx)| **kk != k && xx.values.iter().any(|w| same_value(w, v))).map(|(kk, _)| kk.clone());
-                    set(Violation::new(
-                        "c12.3-provenance",
-                        format!("{}", f),
-                        format!("aircraft {}: {} = {} does not appear in any of its own {} records{}", k, f, v, x.count, owner.map(|o| format!(" (it appears in records of {})", o)).unwrap_or_default()),
-                    ));
-                }
-            }
-        }
-        // clause 4: the entry is identical when the aircraft's records are processed alone
-        if viol.borrow().is_none() && exp.len() > 1 {
-            for (k, x) in exp.iter() {
-                let alone = Arc::new(Mutex::new(app::new_app(120)));
-                let db = BTreeMap::new();
-                for &i in &x.recs {
-                    let mut m = app::clone_tm(&sh.done[i]);
-                    app::now_or_never(crate::snapshot::update_snapshot(&alone, &mut m, &db));
-                }
-                let t = table_json(&alone.try_lock().unwrap());
-                let mine = entries.iter().find(|e| e["icao24"].as_str() == Some(k));
-                if t.get(0) != mine {
-                    let mut field = "entry".to_string();
-                    if let (Some(Value::Object(a)), Some(Value::Object(b))) = (t.get(0), mine) {
-                        for (kk, vv) in a {
-                            if b.get(kk) != Some(vv) {
-                                field = kk.clone();
-                                break;
-                            }
-                        }
-                    }
-                    set(Violation::new(
-                        "c12.4-interference",
-                        field,
-                        format!("aircraft {}: entry {} when other aircraft are interleaved, {} when its records are processed alone", k, mine.map(|m| m.to_string()).unwrap_or_default(), t.get(0).map(|m| m.to_string()).unwrap_or_default()),
-                    ));
-                    break;
-                }
-            }
-        }
+    if let Value::Array(_entries) = &final_table {
         // no interleaving changes the final table
         if let (Some(last), Ok(g)) = (sh.shadow_tables.last(), app.try_lock()) {
             if *last != table_text(&g) && sh.done.len() == n_msgs {
@@ -838,7 +873,7 @@ pub fn execute(plan: &C12Plan) -> Outcome<C12Plan> {
     let mut sig = Fnv::new();
     sig.u64(exec::log_hash());
     out.sigs.push(sig.0);
-    if (multi > 0 || holds_fired > 0 || cancelled > 0) && !exp.is_empty() {
+    if (multi > 0 || holds_fired > 0 || cancelled > 0) && n_exp > 0 {
         out.nontrivial_sigs.push(sig.0);
     }
     out.log_hash = {
